@@ -31,6 +31,8 @@ for c in "$@"; do
   results="$results $c:exit$rc:viol$v"
 done
 git -C /repo checkout -- .
+# replay files written by the runs on the seeded tree are not findings about /repo
+git -C /verif clean -fdq replay
 python3 - "$out" "$ran" "$results" <<'PY'
 import json,sys
 out,ran,results=sys.argv[1:4]
